@@ -222,6 +222,9 @@ func (t *Ticker) armAt(when Duration) {
 		noticed := simrt.Now()
 		delta := noticed - when
 		next := when + Duration(t.period)*(1+delta/Duration(t.period))
+		if simrt.TickNoSkip() {
+			next = when + Duration(t.period)
+		}
 		send := func() {
 			select {
 			case t.c <- simrt.Epoch.Add(Duration(simrt.Now() - delta)):
